@@ -14,6 +14,7 @@ fn fmt_stub2(_a: core::fmt::Arguments<'_>) -> String {
 // @harness c11_discard_range
 // @props C11 C13 C10
 // @tier quick
+// @cost 13
 // @timeout 900
 // @needs D0
 // @desc the whole range computation of discard() (everything before the per-cluster loop, lifted verbatim) for ALL (offset, len): on a writable device it never fails and never overflows; it returns early exactly when no whole cluster lies inside [offset, min(offset+len, vsize)), otherwise the loop bounds are exactly the inward rounding (smallest cluster boundary >= offset, largest <= the clipped end); on a read-only device (incl. every backing device) it returns Err
@@ -61,6 +62,7 @@ fn c11_discard_range() {
 // @harness c11_discard_one_cluster
 // @props C11 C03 C18 C16 C08
 // @tier quick
+// @cost 50
 // @timeout 1200
 // @needs D1
 // @desc the whole body of __discard_one_cluster (awaited lookups and releases shimmed) on an L2 slice with arbitrary content, with and without backing file: compressed, unallocated and zero-without-allocation entries stay bit-identical and nothing is released; otherwise the new entry, decoded by the real into_mapping, READS AS ZEROS (Zero, or Unallocated only without backing file -- never Backing), every other entry is untouched, the clusters released are exactly the old allocation (once), the punch covers exactly those clusters (cluster aligned), and the slice is marked dirty and need_flush is set
@@ -147,7 +149,7 @@ fn c11_discard_one_cluster() {
 // @harness c11_discard_loop
 // @props C11 C13
 // @tier quick
-// @cost 60
+// @cost 45
 // @timeout 900
 // @needs DF
 // @desc the whole body of discard() with the per-cluster step shimmed: the step is invoked exactly once for every whole cluster inside [offset, min(offset+len, vsize)), in ascending order, with cluster-aligned guest offsets, and for nothing else (partially covered head / tail clusters and everything outside the range are never touched); Ok on a writable device, Err and no step on a read-only one
